@@ -695,9 +695,9 @@ func c06child(args []string) int {
 
 type c06env struct {
 	customAlg int
-	keys *gen.KeyRing
-	sum  *c06summary
-	cur  string // entry point / follow-up currently running (for attribution)
+	keys      *gen.KeyRing
+	sum       *c06summary
+	cur       string // entry point / follow-up currently running (for attribution)
 }
 
 func (e *c06env) fu(name string) {
